@@ -126,22 +126,25 @@ Ends(e, s, i, f) ==
 Matches(e, s) == (Len(s) + 1) \in Ends(e, s, 1, FALSE)
 Lang(e) == {s \in Universe : Matches(e, s)}
 
-\* KF-C17-1 (known_findings.json): with >= 16 case-insensitive alternatives the matcher keeps the
-\* literals in a map keyed by toNormalisedLower (NFKD + ToLower): a string whose compatibility
-\* normalisation equals an alternative is accepted although the expression does not match it.
-\* In the model alphabet the only such character is U+00AA, whose NFKD form is "a".
+\* Two classes of strings that FastRegexMatcher used to accept wrongly (known_findings.json
+\* KF-C17-1 / KF-C17-2, both repaired in the repository).  They are ordinary members of the
+\* universe and are compared like every other string; the predicates only let the harness report
+\* how many of these regression inputs every run exercises.
+\* (1) case-insensitive literal alternations kept in a map keyed by NFKD + ToLower: a string whose
+\*     compatibility normalisation equals an alternative was accepted.  In the model alphabet the
+\*     only such character is U+00AA, whose NFKD form is "a".
 Nfkd(s) == [i \in DOMAIN s |-> IF s[i] = "ª" THEN "a" ELSE s[i]]
-KF_C17_1(e, s) == /\ e.k = "fold" /\ e.e.k \in {"alt", "raw"}
-                  /\ \A i \in DOMAIN e.e.es : e.e.es[i].k = "lit"
-                  /\ ~Matches(e, s) /\ Matches(e, Nfkd(s))
-\* KF-C17-2: an alternation of single characters of which some are under (?i:) is parsed into one
-\* character class carrying the FoldCase flag; findSetMatches then takes the whole class for
-\* case-insensitive, so case variants of the case-SENSITIVE alternatives are accepted as well.
+RegressNfkd(e, s) == /\ e.k = "fold" /\ e.e.k \in {"alt", "raw"}
+                     /\ \A i \in DOMAIN e.e.es : e.e.es[i].k = "lit"
+                     /\ ~Matches(e, s) /\ Matches(e, Nfkd(s))
+\* (2) an alternation of single characters of which only some are under (?i:) is parsed into one
+\*     character class carrying the FoldCase flag; the whole class was taken for case-insensitive,
+\*     so case variants of the case-SENSITIVE alternatives were accepted as well.
 OneChar(x)  == x.k = "lit" /\ Len(x.w) = 1
-KF_C17_2(e, s) == /\ e.k \in {"alt", "raw"}
-                  /\ \A i \in DOMAIN e.es : OneChar(e.es[i]) \/ (e.es[i].k = "fold" /\ OneChar(e.es[i].e))
-                  /\ \E i \in DOMAIN e.es : e.es[i].k = "fold"
-                  /\ ~Matches(e, s) /\ Matches(Fold(e), s)
+RegressClassFold(e, s) == /\ e.k \in {"alt", "raw"}
+                          /\ \A i \in DOMAIN e.es : OneChar(e.es[i]) \/ (e.es[i].k = "fold" /\ OneChar(e.es[i].e))
+                          /\ \E i \in DOMAIN e.es : e.es[i].k = "fold"
+                          /\ ~Matches(e, s) /\ Matches(Fold(e), s)
 
 -----------------------------------------------------------------------------
 (* Shape families                                                           *)
@@ -202,8 +205,7 @@ Eval == /\ ~done
         /\ done' = TRUE
         /\ UNCHANGED re
         /\ hist' = <<[re |-> R(re), lang |-> {Str(s) : s \in Lang(re)}, alphabet |-> Alphabet, maxlen |-> MaxLen,
-                       kf1 |-> {Str(s) : s \in {x \in Universe : KF_C17_1(re, x)}},
-                       kf2 |-> {Str(s) : s \in {x \in Universe : KF_C17_2(re, x)}}]>>
+                       regress |-> Cardinality({x \in Universe : RegressNfkd(re, x) \/ RegressClassFold(re, x)})]>>
 Next == Eval
 Spec == Init /\ [][Next]_vars
 
